@@ -10,7 +10,7 @@
     Model/C20_Trace.v gives the primitives their meaning (position, overwrite, truncate, buffered vs raw writes);
     [at_crash s old h bs k] is the output path after the first [k] primitive operations of a call whose header encodes
     to [h] and whose loop produces the blocks [bs], the path holding [old] beforehand. *)
-From Coq Require Import ZArith List Bool.
+From Coq Require Import ZArith List Bool Lia.
 Require Import SPP.Base.Rt SPP.Gen.C20Sites SPP.Model.Stream SPP.Model.C20_Trace SPP.Proofs.C20_trace.
 Import ListNotations.
 Open Scope Z_scope.
@@ -99,6 +99,16 @@ Theorem C20_reader_is_C02 : forall f nchans nsamples start nsamps,
 Proof. exact read_block_file_bytes. Qed.
 Print Assumptions C20_reader_is_C02.
 
+(** multi-output writers work through their outputs in batches: `for batch_start in range(0, n, batch_size)` opens
+    filenames[lo:hi] with lo, hi regenerated from extract_chans / extract_bands.  For every number of outputs and every
+    batch size the slices are valid and output i is opened in batch i / batch_size and in no other: no output path is
+    re-opened (truncated, header re-written) later in the same call, so the per-path statements above cover the whole call *)
+Theorem C20_each_output_opened_once :
+  batch_partition batch_lo_extract_chans batch_hi_extract_chans /\
+  batch_partition batch_lo_extract_bands batch_hi_extract_bands.
+Proof. exact (conj batch_extract_chans batch_extract_bands). Qed.
+Print Assumptions C20_each_output_opened_once.
+
 (** * non-vacuity *)
 (** the hypotheses are met: the site list is not empty, and a concrete call (stale content at the path, 2-byte header,
     three blocks one of them empty) goes through the states old / empty / header / header+blocks *)
@@ -133,3 +143,11 @@ Example C20_example_truncation :
   read_block_file (cut h d 12) 1 16 5 0 5 = OBytes [1; 2; 3; 4; 5; 6; 7; 8; 9; 10] /\
   (16 * 1) mod 8 = 0 /\ In 16 [1; 2; 4; 8; 16; 32].
 Proof. vm_compute. repeat split; auto 10. Qed.
+
+(** batches of 3 over 8 outputs: [0,3) [3,6) [6,8); an inclusive end without the matching -1 would give [0,4) [3,7) [6,8) *)
+Example C20_example_batches :
+  map (fun k => (batch_lo_extract_bands (k * 3) 3 8, batch_hi_extract_bands (k * 3) 3 8)) [0; 1; 2] = [(0, 3); (3, 6); (6, 8)] /\
+  ~ batch_partition (fun b _ _ => b) (fun b bs n => Z.min (b + bs) (n - 1) + 1).
+Proof. split; [reflexivity|]. intro H. destruct (H 8 3 0 ltac:(lia) ltac:(lia) ltac:(lia)) as (_ & _ & Hi).
+  specialize (Hi 3 ltac:(lia)). vm_compute in Hi. destruct Hi as [Hi _].
+  assert (E : 0 = 1) by (apply Hi; split; [intro X; discriminate X|reflexivity]). discriminate E. Qed.
